@@ -402,7 +402,28 @@ func checkSignValidate(c *Ctx, tto *ssa.Function) {
 		exits := l.EarlyExits(p)
 		c.Check("C06-R4", "validate-loop-complete", l.Header.Instrs[0].Pos(), len(exits) == 0, "validateMsgTx can stop before all inputs were verified: "+strings.Join(exits, "; "))
 		// prevScripts parameter is ranged
-		c.Check("C06-R4", "validate-loop-over-prevScripts", l.Header.Instrs[0].Pos(), l.Over == "param:prevScripts" || strings.HasPrefix(l.Over, "param:"), "validateMsgTx does not iterate over the previous scripts parameter ("+l.Over+")")
+		overParam := l.Over == "param:prevScripts" || strings.HasPrefix(l.Over, "param:")
+		if !overParam && l.OverVal != nil {
+			// the scripts handed in as a field of a parameter struct (parameters grouped)
+			for _, o := range (&Slicer{P: p, ThroughDeref: true, ThroughFieldsOfAllocs: true}).Origins(l.OverVal) {
+				if _, _, base, okf := fieldOf(o); okf {
+					for _, o2 := range (&Slicer{P: p, ThroughDeref: true}).Origins(base) {
+						if prm, ok := o2.(*ssa.Parameter); ok && prm.Parent() == v {
+							overParam = true
+						}
+					}
+					if al, ok := base.(*ssa.Alloc); ok && isParamSpill(al) {
+						overParam = true
+					}
+				}
+				if f, ok := o.(*ssa.Field); ok {
+					if prm, ok := f.X.(*ssa.Parameter); ok && prm.Parent() == v {
+						overParam = true
+					}
+				}
+			}
+		}
+		c.Check("C06-R4", "validate-loop-over-prevScripts", l.Header.Instrs[0].Pos(), overParam, "validateMsgTx does not iterate over the previous scripts it was given ("+l.Over+")")
 	}
 	c.Floor("C06-R4", "script verification loops", n, 1)
 	for _, call := range callsNamed(v, "NewEngine") {
